@@ -42,7 +42,8 @@ def program(kind, acts, count=None, consumer='eager'):
     else:
         bodies = {'eager': [], 'slow': [[['D', 1]]] * 5, 'break1': []}[consumer]
         op = ['FIRST', names, scripts, count, bodies] + ([1] if consumer == 'break1' else [])
-    caller = [['TRY', [op]], ['PROBE', 'now'], ['D', 4], ['PROBE', 'now']]
+    # (the trailing postponement lets a cancel race with the caller's normal completion)
+    caller = [['TRY', [op]], ['PROBE', 'now'], ['D', 4], ['PROBE', 'now'], ['INSTANT']]
     return {'_nops': 60, '_meta': {'kind': kind, 'acts': [list(a) for a in acts], 'count': count, 'consumer': consumer},
             'roots': [['root', [['SCOPE', 'm', [['DO', 'caller', caller]]], ['PROBE', 'now']]]]}
 
